@@ -537,3 +537,87 @@ def gen_lock(g):
 
 
 PROFILES['lock'] = gen_lock
+
+
+# ---------------------------------------------------------------------------
+# C11: the time axis
+
+def _dec_str(m, e):
+    """decimal literal m*10^-e as a string without exponent."""
+    s = str(m)
+    if e == 0:
+        return s
+    s = s.rjust(e + 1, '0')
+    return s[:-e] + '.' + s[-e:]
+
+
+def gen_grid(g):
+    from decimal import Decimal
+    r = g.rng
+    n_runs = r.choice([1, 1, 2, 2, 3])
+    unit_switch = g.cfg.get('mixed_time_units', True)
+    runs = []
+    u0 = r.choice(si.units_of('TimeInterval'))
+    for j in range(n_runs):
+        u = u0 if (j == 0 or not unit_switch or g.chance(0.5)) \
+            else r.choice(si.units_of('TimeInterval'))
+        m = r.choice([1, 2, 5, 25, 35, 125]) if g.chance(0.4) else r.randint(1, 999)
+        e = r.randint(0, 4)
+        n = r.randint(2, g.cfg.get('grid_n_max', 120))
+        dt_dec = Decimal(_dec_str(m, e))
+        dt = float(dt_dec)
+        op = {'op': 'run', 'dt': [dt, u], 'n': n, 'control': False,
+              'stop': None, 'solver': 'same'}
+        if g.chance(0.5):
+            op['T_mode'] = 'product'
+        else:
+            op['T_mode'] = 'literal'
+            # T in the same unit or a smaller one (exact decimal conversion)
+            fu = rm.TIME_DEC[u]
+            cands = [x for x in si.units_of('TimeInterval')
+                     if rm.TIME_DEC[x] <= fu]
+            tu = u if g.chance(0.6) else r.choice(cands)
+            T_dec = dt_dec * n * fu / rm.TIME_DEC[tu]
+            op['T'] = [float(T_dec), tu]
+        if int(dt) == dt and g.chance(0.5):
+            op['dt'][0] = int(dt)
+        runs.append(op)
+    dt_max = max(si.q_si('TimeInterval', o['dt']) for o in runs)
+    # a drive slow enough for the largest step (k*dt <= ~0.2)
+    w0 = g.logu(50, 1500)
+    Tmax = g.logu(1e-3, 5)
+    kdt = g.logu(0.001, 0.2)
+    J = Tmax / w0 * dt_max / kdt
+    z1, z2 = g.teeth(), g.teeth()
+    els = [{'kind': 'DCMotor', 'name': 'motor', 'J': g.q('InertiaMoment', J * 0.5),
+            'w0': g.q('AngularSpeed', w0), 'Tmax': g.q('Torque', Tmax),
+            'i0': None, 'imax': None},
+           {'kind': 'SpurGear', 'name': 'gear', 'z': z1,
+            'J': g.q('InertiaMoment', J * 0.5), 'm': None, 'b': None, 'E': None}]
+    decls = [{'op': 'joint', 'm': 0, 's': 1}]
+    scn = {'seed': g.seed, 'profile': 'grid', 'elements': els, 'decls': decls,
+           'motor': 0,
+           'load': {'terms': [{'t': 'const', 'c': Tmax * r.uniform(-0.5, 0.9)}],
+                    'unit': g.unit('Torque')},
+           'init': {'position': g.q('AngularPosition', 0.0),
+                    'speed': g.q('AngularSpeed', r.uniform(0, 1) * w0),
+                    'pwm': None}}
+    sched = []
+    for j, op in enumerate(runs):
+        if j > 0 and g.chance(0.15):
+            sched.append({'op': 'reset', 'reapply': True})
+        sched.append(op)
+    scn['schedule'] = sched
+    # F-STOP: an encoder threshold somewhere along the way
+    if g.chance(0.3):
+        total = sum(run_T_si(o) for o in runs)
+        scn['stops'] = [{'sensor': 'encoder', 'target': 1, 'op': 'ge',
+                         'thr': g.q('AngularPosition',
+                                    r.uniform(0.05, 1.2) * w0 * total)}]
+        for o in runs:
+            if g.chance(0.7):
+                o['stop'] = 0
+    return scn
+
+
+PROFILES['grid'] = gen_grid
